@@ -1,1 +1,179 @@
-fn main() {}
+//! C26 — fresh temporaries never collide.
+//!
+//! Random histories of `Ns::insert` / `Ns::tmp` over small alphabets that include
+//! names of the form base+digits (so the internal counter of `tmp` can run into
+//! defined names).  Shadow model: the set of every name defined or handed out.
+//! Oracle (from the property statement only):
+//!   * `tmp(base)` returns a name that is not in the set; the name joins the set;
+//!   * `insert(name)` is `Err` iff the name is in the set; on `Ok` it joins the set.
+use corelib_mon::{fan_out, only_case};
+use serde_json::json;
+use std::collections::BTreeSet;
+use vkit::{Args, Report, Rng};
+use wit_bindgen_core::Ns;
+
+#[derive(Clone, Debug)]
+enum Op {
+    Insert(String),
+    Tmp(String),
+}
+
+fn alphabet(rng: &mut Rng) -> Vec<String> {
+    // a base or two, plus base+digits twins, plus a few unrelated names
+    let bases: &[&str] = &["a", "b", "ptr", "ret", "x1", "t_", ""];
+    let nb = rng.range(1, 2);
+    let mut v = vec![];
+    for _ in 0..nb {
+        let b = rng.pick(bases).to_string();
+        v.push(b.clone());
+        let lim = *rng.pick(&[2usize, 3, 5, 12]);
+        for i in 0..lim {
+            if rng.chance(3, 4) {
+                v.push(format!("{b}{i}"));
+            }
+        }
+        if rng.chance(1, 3) {
+            v.push(format!("{b}00"));
+            v.push(format!("{b}01"));
+            v.push(format!("{b}10"));
+        }
+        if rng.chance(1, 4) {
+            // names that are themselves base+digit+digit: tmp(base+digit) can reach them
+            v.push(format!("{b}0{}", rng.below(3)));
+            v.push(format!("{b}1{}", rng.below(3)));
+        }
+    }
+    if rng.chance(1, 2) {
+        v.push("other".into());
+    }
+    v.sort();
+    v.dedup();
+    v
+}
+
+fn history(rng: &mut Rng) -> Vec<Op> {
+    let al = alphabet(rng);
+    let n = rng.range(1, 24);
+    let tmp_bias = rng.range(1, 3) as u64;
+    (0..n)
+        .map(|_| {
+            let name = rng.pick(&al).clone();
+            if rng.chance(tmp_bias, 4) {
+                Op::Tmp(name)
+            } else {
+                Op::Insert(name)
+            }
+        })
+        .collect()
+}
+
+fn shape(h: &[Op]) -> String {
+    h.iter()
+        .map(|o| match o {
+            Op::Insert(n) => format!("i:{n}"),
+            Op::Tmp(n) => format!("t:{n}"),
+        })
+        .collect::<Vec<_>>()
+        .join(",")
+}
+
+fn run_case(rng: &mut Rng, idx: u64, rep: &mut Report, seed: u64) {
+    let h = history(rng);
+    let want_trace = idx < 3;
+    run_history(&h, idx, rep, seed, want_trace);
+}
+
+fn run_history(h: &[Op], idx: u64, rep: &mut Report, seed: u64, want_trace: bool) {
+    let mut ns = Ns::default();
+    let mut model: BTreeSet<String> = BTreeSet::new();
+    let mut trace = vec![];
+    let mut collided_path = false; // tmp had to skip at least one taken name
+    let mut conflicts = 0;
+    for (k, op) in h.iter().enumerate() {
+        match op {
+            Op::Insert(name) => {
+                let got = ns.insert(name);
+                let expect_err = model.contains(name);
+                if want_trace {
+                    trace.push(json!({"insert": name, "err": got.is_err()}));
+                }
+                if got.is_err() != expect_err {
+                    if !want_trace {
+                        return run_history(h, idx, rep, seed, true);
+                    }
+                    let sig = if expect_err { "ns:insert-accepts-existing-name" } else { "ns:insert-rejects-fresh-name" };
+                    rep.violation(
+                        sig,
+                        &format!(
+                            "Ns::insert({name:?}) returned {} but the name was {} (defined or handed out so far: {:?}); op #{k} of history [{}]",
+                            if got.is_err() { "Err" } else { "Ok" },
+                            if expect_err { "already present" } else { "absent" },
+                            model,
+                            shape(h)
+                        ),
+                        json!({"seed": seed, "stream": "hist", "case": idx, "history": shape(h), "trace": trace}),
+                    );
+                    return;
+                }
+                if expect_err {
+                    conflicts += 1;
+                } else {
+                    model.insert(name.clone());
+                }
+            }
+            Op::Tmp(base) => {
+                let got = ns.tmp(base);
+                if want_trace {
+                    trace.push(json!({"tmp": base, "got": got}));
+                }
+                if model.contains(base) {
+                    collided_path = true;
+                }
+                if model.contains(&got) {
+                    if !want_trace {
+                        return run_history(h, idx, rep, seed, true);
+                    }
+                    rep.violation(
+                        "ns:tmp-returns-taken-name",
+                        &format!(
+                            "Ns::tmp({base:?}) returned {got:?} which was already defined or handed out ({:?}); op #{k} of history [{}]",
+                            model,
+                            shape(h)
+                        ),
+                        json!({"seed": seed, "stream": "hist", "case": idx, "history": shape(h), "trace": trace}),
+                    );
+                    return;
+                }
+                model.insert(got);
+            }
+        }
+    }
+    rep.eval();
+    rep.count_n("ops", h.len() as u64);
+    rep.count_n("insert_conflicts_seen", conflicts);
+    if collided_path {
+        rep.count("histories_where_tmp_had_to_skip");
+        rep.distinct(&shape(h));
+    }
+    if idx < 3 {
+        rep.sample(json!({"history": shape(h), "trace": trace}));
+    }
+}
+
+fn main() {
+    let args = Args::parse();
+    let seed = args.seed();
+    let n: u64 = args.u64("n", if args.thorough() { 10_000_000 } else { 100_000 });
+    let mut rep = Report::new(
+        "case = one history of 1..24 Ns::insert/Ns::tmp calls over an alphabet {base, base+digits, …}; distinct = histories \
+         (by exact op sequence) in which some tmp(base) was requested while base was already taken, i.e. the counter path ran",
+    );
+    rep.assume("Ns is driven through its public API only (insert, tmp); a history starts from Ns::default()");
+    if let Some(i) = only_case(&args) {
+        let mut rng = corelib_mon::case_rng(seed, 26, i);
+        run_case(&mut rng, i, &mut rep, seed);
+    } else {
+        fan_out(&mut rep, seed, 26, n, |rng, i, r| run_case(rng, i, r, seed));
+    }
+    rep.write(&args.out());
+}
